@@ -14,12 +14,12 @@ META = {
             "their escape sequences and continuation lines, 0'c, longest-match symbol tokens, end token = '.' followed by "
             "layout, % or the end of the text). For any text it gives, for every offset a read may start from, where the "
             "clause ends, whether only layout / an unterminated item / no end token follows, and ReadSync: the sequence of "
-            "outcomes (term | syntax_error | end_of_file) of repeated read_term/2. spec/ReaderCat.tla is a catalogue of 50 "
+            "outcomes (term | syntax_error | end_of_file) of repeated read_term/2. spec/ReaderCat.tla is a catalogue of 52 "
             "segments (valid clauses with the term they denote; malformations at parser level, at lexer level, unterminated "
             "items, undecodable bytes); TLC checks the catalogue against the tokenizer model, enumerates all sequences of <= 2 "
             "segments, all triples ending in a valid clause (thorough: also all triples that begin with a lexer-level "
             "malformation or an unterminated item), all token soups of <= 3 / 4 characters "
-            "over a 14-character alphabet and random soups of 6 / 8 characters (each followed by an end token and a sentinel "
+            "over a 16-character alphabet and random soups of 6 / 8 characters (each followed by an end token and a sentinel "
             "clause), and prints the text with the table of demanded outcomes. The driver writes each text to a file, loops "
             "read_term/2 until end_of_file recording result and stream position, follows the positions the implementation "
             "reports and compares each read with the model's entry for the offset it started from: result class (and the term "
@@ -30,7 +30,7 @@ META = {
             "sequences (no grammar): outside catalogue clauses only 'term or syntax_error' and the position are demanded; "
             "where a broken token has no defined extent (ill-formed escape sequence, 0' before a non-character) no position "
             "is demanded for that clause. Streams are file streams (Scryer has no Prolog-level memory streams) and "
-            "read_term_from_chars/3. Operators are the default table; flags are the defaults (double_quotes = chars).",
+            "read_term_from_chars/3. Operators are the default table plus those of library(dcgs) (the bar is an infix operator, as in the toplevel); flags are the defaults (double_quotes = chars).",
     "technique": "TLA+ token-level specification enumerated by TLC (catalogue sequences, bounded-exhaustive and random token "
                  "soup); vectors replayed through read_term/2 on files with position tracking and a fresh-stream differential",
 }
@@ -39,6 +39,7 @@ BATCH = 100
 
 PRELUDE = r"""
 :- use_module(library(charsio)).
+:- use_module(library(dcgs)).
 c17_pos(S, P) :- ( stream_property(S, position(position_and_lines_read(P0, _))) -> P = P0 ; P = none ).
 c17_reads(S, N, P0, Stuck, Out) :-
     (   N =< 0 -> Out = [cap]
@@ -343,7 +344,7 @@ def run_files(wdir, contents, tag):
             lost = False
             for i, out in zip(chunk, rr):
                 if lost:
-                    nxt.append((i, False))
+                    nxt.append((i, rounds >= 2))     # after a second loss in a row: one machine per input
                     continue
                 results[i] = parse_out(out)
                 if "panic" in out:
